@@ -76,6 +76,7 @@ func runC04(c *Ctx) {
 	c.L.Floor("stale-iteration-state", 3, "listed state machines of cmd and align plus the scope line")
 	c.checkSumGuards("sum-guard-overflow", "SubAlign", "InverseCoordinates", "Mask")
 	c.L.Floor("sum-guard-overflow", 1, "SubAlign and InverseCoordinates (floor = half)")
+	c.checkArgNameOrder("arg-name-order", "align", "cmd")
 }
 
 // splitGuard: in Split, CharAt(pos)/sequence[pos] are safe because
